@@ -52,7 +52,9 @@ def run(ck: Check):
                "the undetailed run is one trace. Non-trivial = pair whose LoopTree uses an inner memory; distinct by "
                "(world, metrics, row).")
     worlds = mc.mapper_worlds(ck, 5 if not thorough else 30, 1000)
-    msets = [("ENERGY",), ("ENERGY", "LATENCY"), ("ENERGY_DELAY_PRODUCT",), ("ENERGY", "LATENCY", "RESOURCE_USAGE")]
+    msets = [("ENERGY",), ("ENERGY", "LATENCY"), ("ENERGY", "RESOURCE_USAGE"), ("ENERGY", "LATENCY", "RESOURCE_USAGE")]
+    if thorough:
+        msets.append(("ENERGY_DELAY_PRODUCT",))
     cases, info = mc.returned_cases(ck, worlds, msets, detail_both=True)
     verdicts = mc.trace_mapping_verdicts(ck, cases, "c04")
     unpaired = 0
